@@ -314,6 +314,15 @@ impl Sched {
                 continue;
             }
             waited += POLL;
+            // only the lowest parked thread watches the holder (it is the one that would take
+            // over); the others just wait, so that at most one thread polls and few contend
+            // for the scheduler's mutex
+            if (0..st.runnable.len()).find(|&i| st.runnable[i] && st.parked[i]) != Some(me) {
+                if waited >= STALL * 4 {
+                    waited = Duration::ZERO; // stay patient: the watcher decides
+                }
+                continue;
+            }
             // Is the holder blocked in the kernel? Its OS thread state tells within a
             // few milliseconds (a thread that computes, or that the OS has merely
             // descheduled, is never in state S, and one that waits only briefly wakes up in
@@ -346,7 +355,7 @@ impl Sched {
                     }
                 };
             }
-            if asleep >= 4 || waited >= STALL {
+            if asleep >= 6 || waited >= STALL {
                 // only a thread that is really parked here can take over (the
                 // holder, and threads declared stalled earlier, may all be
                 // blocked in the kernel on something a parked thread owns)
